@@ -235,9 +235,28 @@ def sign_extra(ctx: Ctx):
     return {"text": text, "points": pts}
 
 
+def shape_extra(ctx: Ctx):
+    """boundary shapes: no parameters, a single state, no intermediates (empty lists in the templates)"""
+    rng = ctx.rng
+    k = rng.randrange(4)
+    c = round(rng.uniform(0.2, 2.5), 2)
+    if k == 0:
+        text = f"states(x=0.5, y=2)\ni = x*y\ndx_dt = -{c}*i\ndy_dt = x - y\n"                       # no parameters
+    elif k == 1:
+        text = f"states(x=0.5)\nparameters(a={c})\ndx_dt = -a*x\n"                                    # one state, no intermediates
+    elif k == 2:
+        text = f"states(x=0.5)\ndx_dt = {c} - x*x\n"                                                   # one state, nothing else
+    else:
+        text = f"states(x=0.5, y=1, z=2)\nparameters(a={c})\ndx_dt = a\ndy_dt = -a\ndz_dt = 0\n"     # constants only
+    pts = [{"x": rng.uniform(-2, 2), "y": rng.uniform(-2, 2), "z": rng.uniform(-2, 2), "a": rng.uniform(0.1, 2), "t": 0.3, "dt": 0.01} for _ in range(3)]
+    return {"text": text, "points": pts}
+
+
 def cond_extra(ctx: Ctx):
-    k = ctx.rng.random()
-    return cond_nest_extra(ctx) if k < 0.45 else (sign_extra(ctx) if k < 0.7 else c03_extra(ctx))
+    """crafted families in rotation (every family gets its turn even in a short run)"""
+    i = getattr(ctx, "_extra_turn", 0)
+    ctx._extra_turn = i + 1
+    return [shape_extra, cond_nest_extra, sign_extra, c03_extra, cond_nest_extra][i % 5](ctx)
 
 
 def big_cfg(ctx, k):
